@@ -87,11 +87,17 @@ func VPH_C09_sni_tunnel() {
 	var stream []byte
 	stream = append(stream, hello...)
 	stream = append(stream, extra...)
-	// first segment: the hello alone, or the hello together with the bytes that follow it
+	// first segment: part of the hello, the hello alone, or the hello together with what follows it
 	first := len(hello)
-	if vp.Bool("extra-in-first-segment") {
+	switch vp.Choice("first-segment", 4) {
+	case 1:
 		first += len(extra)
 		vp.Cover("data-in-hello-segment")
+	case 2:
+		first = 20 // the ClientHello itself arrives in two segments
+		vp.Cover("hello-split")
+	case 3:
+		first = len(hello) - 3
 	}
 	c := &vpClient{segs: [][]byte{stream[:first], stream[first:], tail}, remote: &net.TCPAddr{IP: net.IP{10, 0, 0, 1}, Port: 5555}}
 	addr := vp.UpstreamListen()
